@@ -1,14 +1,24 @@
 #!/bin/sh
-# tools/seed_matrix.sh [tier]: every seed under /verif/seeded against every check its meta.json names in detected_by.
+# tools/seed_matrix.sh [tier]: every seed under seeded/ against every check its meta.json names in detected_by.
 # One line per pair; "MISSED" when the check did not report a violation with the seed applied.
+# Works on the tree named by VERIF_REPO (default /repo) and in the copy of /verif this script lives in, so that
+#   vp run --with-repo -- sh -c 'VERIF_REPO=$VP_RUN_REPO tools/seed_matrix.sh'
+# runs the whole matrix on snapshots without touching /repo or the committed evidence.
 tier=${1:-quick}
-cd /verif
+here=$(cd "$(dirname "$0")/.." && pwd)
+repo=${VERIF_REPO:-/repo}
+cd "$here"
 for d in seeded/*/; do
   s=$(basename $d)
   [ -f $d/meta.json ] || continue
-  git -C /repo apply --check /verif/$d/patch.diff 2>/dev/null || { echo "$s -- patch does not apply (superseded)"; continue; }
+  git -C $repo apply --check $here/$d/patch.diff 2>/dev/null || { echo "$s -- patch does not apply (superseded)"; continue; }
   for c in $(python3 -c "import json;print(' '.join(json.load(open('$d/meta.json')).get('detected_by',[])))"); do
-    out=$(tools/try_seed.sh $s $c $tier 2>&1 | head -1)
-    case "$out" in *"exit=1"*) echo "$s $c detected";; *) echo "$s $c MISSED ($out)";; esac
+    git -C $repo apply $here/$d/patch.diff
+    VERIF_REPO=$repo ./check $c --tier $tier > /tmp/matrix_${s}_$c.log 2>&1; rc=$?
+    git -C $repo checkout -- .
+    n=$(grep -c "^VIOLATION" /tmp/matrix_${s}_$c.log)
+    if [ $rc -eq 1 ]; then echo "$s $c detected ($n violation lines)"; else echo "$s $c MISSED (exit=$rc)"; fi
+    rm -f /tmp/matrix_${s}_$c.log
   done
 done
+echo "matrix done"
